@@ -16,7 +16,7 @@ from __future__ import annotations
 import ast
 
 from ..astutil import dotted, src, walk_local, local_assignments, calls
-from ..dispatch import dispatcher, dead_arms, ops_handled, operand_slots
+from ..dispatch import dispatcher, dead_arms, ops_handled, operand_slots, exact_arm
 from ..must import analyze
 from ..report import AnalysisError
 from .. import tags
@@ -166,8 +166,8 @@ def check(prog, rep):
 
     # ------------------------------------------------------------------ R01.3 / R01.4 binary and unary arms
     for fi, d, label in ((rec, drec, "recursive"), (it, dit, "iterative")):
-        ba = d.handler(prog, "BinaryOp")
-        ua = d.handler(prog, "UnaryOp")
+        ba = exact_arm(d, prog, "BinaryOp")
+        ua = exact_arm(d, prog, "UnaryOp")
         if ba is None or ua is None:
             raise AnalysisError(f"{fi.name}: BinaryOp/UnaryOp arms not found")
         env = arm_env(ba)
@@ -273,8 +273,8 @@ def check(prog, rep):
         except tags.Unknown as e:
             raise AnalysisError(f"R01.7: {k}.evaluate: {e}")
         for fi, d in ((rec, drec), (it, dit)):
-            a = d.handler(prog, k)
-            if a is None:
+            a = exact_arm(d, prog, k)
+            if a is None or k not in a.kinds:
                 continue
             env = arm_env(a)
             lams = result_lambdas(a)
